@@ -3,7 +3,7 @@ from rules import lib_call
 
 LEVEL = "other"
 ENTRIES = ["parse::dlt_message", "parse::dlt_consume_msg"]
-ALLOW = {("parse::dlt_payload", "nom::number::complete::be_u8"): "control-message id byte: only evaluated after validated_payload_length proved the whole declared message is present and payload_length >= 1"}
+ALLOW = {}  # no function-name allow-list: a complete primitive is accepted only where its short-input outcome is infeasible (COMPLETE rule)
 
 
 def run(ctx):
@@ -14,10 +14,38 @@ def run(ctx):
         if not F.body(e):
             R.violation("ANCHOR", "missing|" + e, "anchor function %s not found" % e, kind="ANCHOR-MISSING")
             return
-    reach, n = lib_call.check_streaming(ctx, ENTRIES, ALLOW)
+    reach, n = lib_call.check_streaming(ctx, ENTRIES, ALLOW, defer_complete=True)
     R.floor("CALL-S", 40)
+    complete_prims(ctx)
     try:
         from rules import lib_incomplete
         lib_incomplete.check(ctx)
     except ImportError:
         R.notes.append("TAB-E / order rule / HINT not built yet")
+
+
+def complete_prims(ctx):
+    """COMPLETE: a complete (non-streaming) nom primitive reachable from the entry points is accepted only if, in the
+    in-context analysis, its short-input outcome is infeasible at every application (the bytes it reads are known to be
+    present: it sits behind the length verdict / inside the bounded payload)."""
+    from rules import lib_parse
+    R = ctx.report
+    deferred = getattr(ctx, "deferred_complete", [])
+    if not deferred:
+        return
+    eng, outs = lib_parse.level1(ctx)
+    evs = [e for e in eng.events if e[0] == "complete_prim"]
+    for c in lib_parse.CUTS:
+        e2, _ = lib_parse.standalone(ctx, c)
+        if e2 is not None:
+            evs += [e for e in e2.events if e[0] == "complete_prim"]
+    for (fn, path, fl, ln) in deferred:
+        nm = path.split("::")[-1]
+        mine = [e for e in evs if e[1] == nm]
+        if mine and not any(e[2] for e in mine):
+            R.obligation("COMPLETE", "%s|%s" % (fn, path), "discharged", "short-input outcome infeasible at all %d evaluated applications" % len(mine))
+            R.instance("COMPLETE", "%s uses %s where its input is known to be present" % (fn, path))
+        elif not mine:
+            R.violation("COMPLETE", "%s|%s|unevaluated" % (fn, path), "complete (non-streaming) nom primitive %s is referenced by %s but never applied in the analysed contexts: cannot show that a truncated buffer does not reach it" % (path, fn), file=fl, line=ln, function=fn, kind="UNRECOGNISED-SHAPE")
+        else:
+            R.violation("COMPLETE", "%s|%s" % (fn, path), "complete (non-streaming) nom primitive %s in %s can be applied to an input that is too short: a truncated buffer yields a hard error instead of Incomplete" % (path, fn), file=fl, line=ln, function=fn)
